@@ -12,14 +12,21 @@ Open Scope N_scope.
 
 Notation key := N (only parsing).
 
+(* what loading the plaintext of a decrypted key file gives, step by step:
+   getSignerFromPEMBytes fails | the type switch rejects the key (an Ed25519 key in the main file,
+   an RSA/ECDSA key in the Ed25519 file) | generateCADer fails | everything succeeds *)
+Inductive fileres := FGood | FUnparsable | FWrongType | FCaFails.
+Definition file_ok (r : fileres) : bool := match r with FGood => true | _ => false end.
+
 Record cfg := {
   right_pass : bs;                       (* passphrase of the armored main key file *)
   main_key   : key;
-  main_ok    : bool;                     (* plaintext parses to an RSA/ECDSA signer and generateCADer succeeds *)
+  main_res   : fileres;                  (* loading the plaintext of the main file (RSA/ECDSA signer expected) *)
   role_ok    : bool;                     (* generateSelfRoleRequestingCADer succeeds *)
-  ed_file    : option (bs * key * bool); (* optional Ed25519 file: its passphrase, key, parses-as-Ed25519 *)
-  extra_pubkeys : list key               (* keymaster_public_keys_filename: keys of sibling servers *)
+  ed_file    : option (bs * key * fileres); (* optional Ed25519 file: its passphrase, key, loading its plaintext *)
+  extra_pubkeys : list key               (* keymaster_public_keys_filename: any keys, any order, duplicates allowed *)
 }.
+Definition main_ok (c : cfg) : bool := file_ok (main_res c).
 
 Record state := {
   signer  : option key;    (* RuntimeState.Signer *)
@@ -58,17 +65,49 @@ Definition add_pubkeys (s : state) : list key :=
   match signer s with Some k => add_key k l1 | None => l1 end.
 
 (* ------------------------------------------------------------------ unsealCA, as written *)
-(* returns the new state and whether nil (no error) was returned *)
+(* returns the new state and whether nil (no error) was returned.  loadSignersFromPemData (after
+   the repair) keeps everything it derives from the two files in local variables until the last
+   check has passed; only then does it assign. *)
 Definition unseal_ca (c : cfg) (s : state) (p : bs) : state * bool :=
   if is_some (signer s) then (s, false)                         (* "already unlocked" *)
   else if negb (bs_eqb p (right_pass c)) then (s, false)        (* main file does not decrypt *)
   else
-    let after_ed :=                                              (* loadSignersFromPemData, Ed25519 part *)
+    let ed_checked :=                                            (* Ed25519 file: decrypt, parse, type switch, CA *)
+      match ed_file c with
+      | None => Some None
+      | Some (pe, e, r) =>
+          if negb (bs_eqb p pe) then None
+          else if negb (file_ok r) then None
+          else Some (Some e)
+      end in
+    match ed_checked with
+    | None => (s, false)
+    | Some oe =>
+        if negb (main_ok c) then (s, false)
+        else if negb (role_ok c) then (s, false)
+        else
+          let s1 := match oe with
+                    | Some e => set_ed (set_ca_ders s (ca_ders s ++ [e])) (Some e)
+                    | None => s
+                    end in
+          let s2 := set_role_ca s1 (Some (main_key c)) in
+          let s3 := set_signer (set_ca_ders s2 (ca_ders s2 ++ [main_key c])) (Some (main_key c)) in
+          let s4 := set_pubkeys s3 (add_pubkeys s3) in
+          (set_ready s4 (S (ready_sent s4)), true)
+    end.
+
+(* loadSignersFromPemData BEFORE the repair: the Ed25519 signer and its CA certificate were assigned
+   before the main key was looked at, and the role CA field was overwritten by a failed generation *)
+Definition unseal_ca_old (c : cfg) (s : state) (p : bs) : state * bool :=
+  if is_some (signer s) then (s, false)
+  else if negb (bs_eqb p (right_pass c)) then (s, false)
+  else
+    let after_ed :=
       match ed_file c with
       | None => Some s
-      | Some (pe, e, eok) =>
-          if negb (bs_eqb p pe) then None                        (* Ed25519 file does not decrypt: before any assignment *)
-          else if negb eok then None
+      | Some (pe, e, r) =>
+          if negb (bs_eqb p pe) then None
+          else if negb (file_ok r) then None
           else Some (set_ed (set_ca_ders s (ca_ders s ++ [e])) (Some e))
       end in
     match after_ed with
@@ -87,13 +126,15 @@ Definition unseal_ca (c : cfg) (s : state) (p : bs) : state * bool :=
 (* ------------------------------------------------------------------ secretInjectorHandler *)
 Record inj := { i_tls : bool; i_chain : bool; i_field : option bs }.
 
-Definition inject (c : cfg) (s : state) (r : inj) : state * N :=
+Definition inject_with (unseal : cfg -> state -> bs -> state * bool) (c : cfg) (s : state) (r : inj) : state * N :=
   if negb (i_tls r) then (s, 500)
   else if negb (i_chain r) then (s, 403)
   else match i_field r with
        | None => (s, 400)
-       | Some p => let '(s', ok) := unseal_ca c s p in (s', if ok then 200 else 400)
+       | Some p => let '(s', ok) := unseal c s p in (s', if ok then 200 else 400)
        end.
+Definition inject : cfg -> state -> inj -> state * N := inject_with unseal_ca.
+Definition inject_old : cfg -> state -> inj -> state * N := inject_with unseal_ca_old.
 
 Definition readyz (s : state) : N := if is_some (signer s) then 200 else 503.
 
@@ -163,10 +204,11 @@ Inductive act :=
 | ALock | AUnlock
 | ATest            (* if state.Signer != nil { return error } *)
 | ADecrypt (p : bs)(* both pgpDecryptFileData calls *)
-| ALoadEd          (* parse + type switch + generateCADer of the Ed25519 key *)
+| ALoadEd          (* parse + type switch + generateCADer of the Ed25519 key, into locals *)
+| ACheckMain       (* parse + type switch + generateCADer of the main key, into locals *)
+| ACheckRole       (* generateSelfRoleRequestingCADer, into a local; return on error *)
 | ASetCaEd | ASetEd
-| ACheckMain       (* parse + type switch + generateCADer of the main key *)
-| ASetRoleCa       (* state.selfRoleCaCertDer, err = ...; return on error *)
+| ASetRoleCa       (* state.selfRoleCaCertDer = ... *)
 | ASetCa | ASetSigner
 | ASetPubkeys      (* signerPublicKeyToKeymasterKeys *)
 | ASendReady
@@ -174,7 +216,7 @@ Inductive act :=
 | AUse.            (* the handler body reads Signer, caCertDer, KeymasterPublicKeys without the lock *)
 
 Definition unseal_body (p : bs) : list act :=
-  [ATest; ADecrypt p; ALoadEd; ASetCaEd; ASetEd; ACheckMain; ASetRoleCa; ASetCa; ASetSigner; ASetPubkeys; ASendReady].
+  [ATest; ADecrypt p; ALoadEd; ACheckMain; ACheckRole; ASetCaEd; ASetEd; ASetRoleCa; ASetCa; ASetSigner; ASetPubkeys; ASendReady].
 Definition unseal_prog (p : bs) : list act := ALock :: unseal_body p ++ [AUnlock].
 Definition request_prog (uses : nat) : list act := [ALock; AReadSigner; AUnlock] ++ repeat AUse uses.
 
@@ -196,11 +238,12 @@ Definition exec (c : cfg) (a : act) (s : state) (t : thread) : state * thread :=
   | ALock | AUnlock => (s, t)
   | ATest => if is_some (signer s) then (s, abort t) else (s, t)
   | ADecrypt p => if decrypt_ok c p then (s, t) else (s, abort t)
-  | ALoadEd => match ed_file c with Some (_, _, false) => (s, abort t) | _ => (s, t) end
+  | ALoadEd => match ed_file c with Some (_, _, r) => if file_ok r then (s, t) else (s, abort t) | None => (s, t) end
   | ASetCaEd => match ed_file c with Some (_, e, _) => (set_ca_ders s (ca_ders s ++ [e]), t) | None => (s, t) end
   | ASetEd => match ed_file c with Some (_, e, _) => (set_ed s (Some e), t) | None => (s, t) end
   | ACheckMain => if main_ok c then (s, t) else (s, abort t)
-  | ASetRoleCa => if role_ok c then (set_role_ca s (Some (main_key c)), t) else (set_role_ca s None, abort t)
+  | ACheckRole => if role_ok c then (s, t) else (s, abort t)
+  | ASetRoleCa => (set_role_ca s (Some (main_key c)), t)
   | ASetCa => (set_ca_ders s (ca_ders s ++ [main_key c]), t)
   | ASetSigner => (set_signer s (Some (main_key c)), t)
   | ASetPubkeys => (set_pubkeys s (add_pubkeys s), t)
@@ -290,10 +333,20 @@ Fixpoint arts_eqb (l1 l2 : list (N * N * bool)) : bool :=
   | _, _ => false
   end.
 
-(* one probed request: the state is the freshly loaded one, or that state after one injection of the
-   right passphrase; p = the signing primitives the request reaches (as seen on the unsealed twin) *)
-Definition route_case_ok (c : cfg) (injected : bool) (p : list hstep) (err : bool) (arts : list (N * N * bool)) : bool :=
-  let s := if injected then fst (unseal_ca c (sealed_init c) (right_pass c)) else sealed_init c in
+(* a state in which only the Ed25519 signer and its CA certificate are present (no unsealing path of
+   the repaired code leads there; the handlers must refuse there all the same) *)
+Definition half_loaded (c : cfg) : state :=
+  match ed_file c with
+  | Some (_, e, _) => set_ed (set_ca_ders (sealed_init c) [e]) (Some e)
+  | None => sealed_init c
+  end.
+
+(* one probed request: the state is the freshly loaded one (mode 0), that state after one injection
+   of the right passphrase (1), or the half-loaded one (2); p = the signing primitives the request
+   reaches (as seen on the unsealed twin) *)
+Definition route_case_ok (c : cfg) (mode : N) (p : list hstep) (err : bool) (arts : list (N * N * bool)) : bool :=
+  let s := if mode =? 1 then fst (unseal_ca c (sealed_init c) (right_pass c))
+           else if mode =? 2 then half_loaded c else sealed_init c in
   let '(cl, out) := run_handler s p [] in
   arts_eqb out arts &&
   (if is_some (signer s) then true else implb (reaches_signing p) err).
